@@ -17,7 +17,6 @@ package internal
 import (
 	"net/url"
 	"strings"
-	"unicode"
 )
 
 // URLKeyer describes the interface implemented by types that can generate a
@@ -69,6 +68,11 @@ func makeURLKey(u *url.URL) string {
 	}
 	// RFC 3986 §6.2.2.1: Host is lowercased.
 	hostPort := strings.ToLower(host)
+	if strings.Contains(hostPort, ":") {
+		// An IP literal keeps its brackets, otherwise its last group and a port
+		// cannot be told apart ("[::1]:8080" versus "[::1:8080]").
+		hostPort = "[" + hostPort + "]"
+	}
 
 	// RFC 3986 §6.2.3: Only include port if it is non-default for the scheme.
 	if port != "" && port != defaultP {
@@ -141,7 +145,9 @@ func fromHex(c byte) byte {
 
 // isUnreserved reports whether r is an unreserved character per RFC 3986 §2.3.
 func isUnreserved(r rune) bool {
-	return unicode.IsLetter(r) || unicode.IsDigit(r) ||
+	// ALPHA / DIGIT are ASCII only: an escaped byte >= 0x80 is part of some
+	// character encoding, not a Latin-1 letter, and must stay escaped.
+	return ('a' <= r && r <= 'z') || ('A' <= r && r <= 'Z') || ('0' <= r && r <= '9') ||
 		r == '-' || r == '.' || r == '_' || r == '~'
 }
 
